@@ -302,4 +302,224 @@ theorem litScan_nl (q : UInt8) (hq : q ≠ 10) : ∀ (r : Bytes) (n : Nat), litS
     | newline => rw [ht] at h; simp [LitScan.add] at h
     | open_ => rw [ht] at h; simp [LitScan.add] at h
 
+theorem take_drop_self (l : Bytes) (n : Nat) : (l.take n).drop n = [] := by
+  apply List.drop_eq_nil_of_le
+  simp [List.length_take]; omega
+
+theorem advance_dirty_nn (st : LxSt) (n : Nat) : (st.advance n n).dirty = st.dirty := by
+  simp [LxSt.advance, take_drop_self]
+
+theorem slashRes_nn (r : Bytes) (n m : Nat) (d : Bool) (h : slashRes r = .skip n m d)
+    (hne : ¬ HasEmptyComment (47 :: r)) : m = n := by
+  unfold slashRes at h
+  split at h
+  · cases h
+  · rename_i d0 r2
+    split at h
+    · injection h with h1 h2 _; omega
+    · split at h
+      · split at h
+        · rename_i r4
+          exact absurd ⟨[], r4, by simp_all⟩ hne
+        · split at h
+          · injection h with h1 h2 _; omega
+          · cases h
+      · cases h
+
+theorem numberRes_nn (inp : Bytes) (s : Nat) :
+    (∀ t n m, numberRes inp s = .tok t n m → m = n) ∧ (∀ n m, numberRes inp s = .lexErr n m → m = n) := by
+  unfold numberRes
+  simp only []
+  constructor
+  · intro t n m h
+    split at h
+    · split at h
+      · injection h with _ h1 h2; omega
+      · cases h
+    · split at h
+      · split at h
+        · injection h with _ h1 h2; omega
+        · cases h
+      · split at h
+        · injection h with _ h1 h2; omega
+        · cases h
+  · intro n m h
+    split at h
+    · split at h
+      · cases h
+      · injection h with h1 h2; omega
+    · split at h
+      · split at h
+        · cases h
+        · injection h with h1 h2; omega
+      · split at h
+        · cases h
+        · injection h with h1 h2; omega
+
+/-- "the part of the chunk on which `newline` actions do not fire has no newline". -/
+def ResClean (rest : Bytes) : TokRes → Prop
+  | .tok _ n m => ((rest.take n).drop m).contains 10 = false
+  | .lexErr n m => ((rest.take n).drop m).contains 10 = false
+  | _ => True
+
+theorem resClean_nn (rest : Bytes) (t : Tok) (n : Nat) : ResClean rest (.tok t n n) := by
+  simp [ResClean, take_drop_self]
+
+theorem resClean_err_nn (rest : Bytes) (n : Nat) : ResClean rest (.lexErr n n) := by
+  simp [ResClean, take_drop_self]
+
+theorem numberRes_clean (rest inp : Bytes) (s : Nat) : ResClean rest (numberRes inp s) := by
+  unfold numberRes
+  simp only []
+  split
+  · split
+    · exact resClean_nn _ _ _
+    · exact resClean_err_nn _ _
+  · split
+    · split
+      · exact resClean_nn _ _ _
+      · exact resClean_err_nn _ _
+    · split
+      · exact resClean_nn _ _ _
+      · exact resClean_err_nn _ _
+
+theorem literalRes_clean (c : UInt8) (r : Bytes) (hc : c = 34 ∨ c = 39)
+    (hne : ¬ HasEscapedNewline (c :: r)) : ResClean (c :: r) (literalRes c r) := by
+  have hq : c ≠ 10 := by rcases hc with rfl | rfl <;> decide
+  unfold literalRes
+  split
+  · rename_i n hl
+    have hclean : (((c :: r).take (n + 1)).drop 0).contains 10 = false := by
+      simp only [List.take_succ_cons, List.drop_zero, List.contains_cons, Bool.or_eq_false_iff,
+        beq_eq_false_iff_ne]
+      refine ⟨fun e => hq e.symm, ?_⟩
+      cases hcont : (r.take n).contains 10 with
+      | false => rfl
+      | true =>
+        have := litScan_nl c hq r n hl hcont
+        exact absurd (infix_of_suffix_split (pre := [c]) this) hne
+    split
+    · exact hclean
+    · exact hclean
+  · trivial
+  · trivial
+
+theorem wordRes_clean (c : UInt8) (r : Bytes) : ResClean (c :: r) (wordRes c r) := by
+  unfold wordRes
+  split
+  · exact resClean_nn _ _ _
+  · split
+    · exact resClean_err_nn _ _
+    · exact resClean_nn _ _ _
+
+/-- the part of a token's chunk on which `newline` actions do not fire has no newline, unless the
+document has a backslash-newline. -/
+theorem tokenRes_clean (c : UInt8) (r : Bytes) (hne : ¬ HasEscapedNewline (c :: r)) :
+    ResClean (c :: r) (tokenRes c r) := by
+  unfold tokenRes
+  split
+  · exact resClean_nn _ _ _
+  · split
+    · rename_i hc
+      simp only [Bool.or_eq_true, decide_eq_true_eq] at hc
+      exact literalRes_clean c r hc hne
+    · split
+      · unfold signRes
+        split
+        · trivial
+        · split
+          · exact numberRes_clean _ _ _
+          · trivial
+      · split
+        · exact numberRes_clean _ _ _
+        · split
+          · exact wordRes_clean c r
+          · trivial
+
+theorem advance_dirty (st : LxSt) (n m : Nat) :
+    (st.advance n m).dirty = (st.dirty || ((st.rest.take n).drop m).contains 10) := rfl
+
+/-- On a document without `/**/` and without backslash-newline the scanner state never gets
+dirty: every `\n` it consumes goes through the `newline` action. -/
+theorem lexOne_clean (s : Bytes) (h1 : ¬ HasEmptyComment s) (h2 : ¬ HasEscapedNewline s) :
+    ∀ (f : Nat) (st : LxSt) (doc : Option Bytes) (nl : Nat) (sk : Bool) (pre : Bytes),
+    Inv s st pre → st.dirty = false →
+    (lexOne f st doc nl sk).1.dirty = false ∧ (lexOne f st doc nl sk).2.dirty = false := by
+  intro f
+  induction f with
+  | zero => intro st doc nl sk pre h hd; exact ⟨hd, hd⟩
+  | succ f ih =>
+    intro st doc nl sk pre h hd
+    have hnn : ∀ n, (st.advance n n).dirty = false := fun n => by rw [advance_dirty_nn]; exact hd
+    unfold lexOne
+    split
+    · exact ⟨hd, hd⟩
+    · rename_i c r hrest
+      have hsuf1 : ¬ HasEmptyComment (c :: r) := fun hh => h1 (by
+        rw [h.split, hrest]; exact infix_of_suffix_split hh)
+      have hsuf2 : ¬ HasEscapedNewline (c :: r) := fun hh => h2 (by
+        rw [h.split, hrest]; exact infix_of_suffix_split hh)
+      split
+      · exact ih _ _ _ _ _ (h.advance 1 1) (hnn 1)
+      · split
+        · exact ih _ _ _ _ _ (h.advance 1 1) (hnn 1)
+        · split
+          · exact ih _ _ _ _ _ (h.advance _ _) (hnn _)
+          · split
+            · rename_i hc47
+              split
+              · rename_i n m isDoc hs
+                have hmn : m = n := slashRes_nn r n m isDoc hs (by rw [← hc47]; exact hsuf1)
+                subst hmn
+                split
+                · exact ih _ _ _ _ _ (h.advance _ _) (hnn _)
+                · exact ih _ _ _ _ _ (h.advance _ _) (hnn _)
+              · exact ⟨hd, hd⟩
+              · split
+                · exact ⟨hd, hnn _⟩
+                · exact ⟨hd, hd⟩
+            · have hclean := tokenRes_clean c r hsuf2
+              split
+              · rename_i t n m ht
+                rw [ht] at hclean
+                refine ⟨hd, ?_⟩
+                simp only [mkTok, advance_dirty, hd, Bool.false_or, hrest]
+                exact hclean
+              · rename_i n m ht
+                rw [ht] at hclean
+                refine ⟨hd, ?_⟩
+                simp only [mkTok, advance_dirty, hd, Bool.false_or, hrest]
+                exact hclean
+              · exact ⟨hd, hd⟩
+              · exact ⟨hd, hd⟩
+
+theorem lexLoop_clean (s : Bytes) (h1 : ¬ HasEmptyComment s) (h2 : ¬ HasEscapedNewline s) :
+    ∀ (f : Nat) (st : LxSt) (pre : Bytes), Inv s st pre → st.dirty = false →
+    ∀ t ∈ lexLoop f st, t.dirty = false := by
+  intro f
+  induction f with
+  | zero =>
+    intro st pre h hd t ht
+    simp only [lexLoop, List.mem_singleton] at ht
+    subst ht; exact hd
+  | succ f ih =>
+    intro st pre h hd t ht
+    have hc : (lexCall st).1.dirty = false ∧ (lexCall st).2.dirty = false :=
+      lexOne_clean s h1 h2 _ st none 0 false pre h hd
+    have hs : ∃ pre', Inv s (lexCall st).2 pre' :=
+      (lexOne_spec s (st.rest.length + 1) st none 0 false pre h).1
+    simp only [lexLoop] at ht
+    by_cases he : (lexCall st).1.tok = Tok.eof
+    · rw [if_pos he, List.mem_singleton] at ht
+      subst ht; exact hc.1
+    · rw [if_neg he] at ht
+      rcases List.mem_cons.1 ht with ht | ht
+      · subst ht; exact hc.1
+      · obtain ⟨pre', h'⟩ := hs
+        exact ih _ pre' h' hc.2 t ht
+
+theorem lexAll_clean (s : Bytes) (h1 : ¬ HasEmptyComment s) (h2 : ¬ HasEscapedNewline s) :
+    ∀ t ∈ lexAll s, t.dirty = false :=
+  lexLoop_clean s h1 h2 _ _ [] (Inv.init s) rfl
+
 end ThriftVerif.Idl
